@@ -607,10 +607,9 @@ func headerSource(v ssa.Value, cells map[*ssa.Alloc]*ssa.Call) (*ssa.Alloc, ssa.
 			// the result of a small reading helper of the repository
 			// (n, err := readUint32(r)): the cell it decodes into stands for it
 			var call *ssa.Call
+			res := 0
 			if ex, ok := x.(*ssa.Extract); ok {
-				if ex.Index != 0 {
-					return nil, nil
-				}
+				res = ex.Index
 				call, _ = ex.Tuple.(*ssa.Call)
 			} else {
 				call = x.(*ssa.Call)
@@ -625,9 +624,12 @@ func headerSource(v ssa.Value, cells map[*ssa.Alloc]*ssa.Call) (*ssa.Alloc, ssa.
 			inner := decodedInts(g)
 			var cell *ssa.Alloc
 			for _, ret := range ssau.ReturnsOf(g) {
-				rv := ret.Results[0]
-				if k, isC := ssau.ConstInt(rv); isC && k == 0 {
-					continue // error path
+				if res >= len(ret.Results) {
+					return nil, nil
+				}
+				rv := ssau.ResultValue(ret, res)
+				if _, isC := rv.(*ssa.Const); isC {
+					continue // error path, or a built-in default: nothing the file chose
 				}
 				al, _ := headerSource(rv, inner)
 				if al == nil || (cell != nil && cell != al) {
@@ -717,6 +719,7 @@ func c19Alloc(c *Ctx, sx *symx.Ctx) {
 		})
 	}
 	r.Floor("O-4", "header-sized allocations examined", nSinks, 3)
+	c19NarrowArithmetic(c, sx)
 	r.Floor("O-5", "open/read calls examined", nReads, 8)
 	c19Divisors(c, sx)
 }
@@ -925,4 +928,72 @@ func validatorBounds(fn *ssa.Function, p *ssa.Parameter) bool {
 		}
 	}
 	return n > 0
+}
+
+// c19NarrowArithmetic: a header value that is multiplied, added to or shifted
+// in a type narrower than 64 bits can wrap before it reaches the size guard
+// (2 + 4*dimension in uint32 is 2 for dimension 1<<30): the guard then
+// bounds nothing. Values of at most 16 bits, and values a dominating
+// comparison bounds, cannot wrap a 32-bit product with a small constant and
+// are accepted.
+func c19NarrowArithmetic(c *Ctx, sx *symx.Ctx) {
+	r := c.R
+	n := 0
+	for _, fn := range c.P.RepoFuncs() {
+		if fn.Pkg == nil || !strings.HasSuffix(fn.Pkg.Pkg.Path(), "/internal/embedding") || fn.Blocks == nil {
+			continue
+		}
+		cells := decodedInts(fn)
+		f := sx.Of(fn)
+		ord := newOrdinal()
+		ssau.ForEachInstr(fn, true, func(in ssa.Instruction) {
+			b, ok := in.(*ssa.BinOp)
+			if !ok {
+				return
+			}
+			switch b.Op {
+			case token.MUL, token.ADD, token.SHL:
+			default:
+				return
+			}
+			bt, ok := b.Type().Underlying().(*types.Basic)
+			if !ok || bt.Info()&types.IsInteger == 0 {
+				return
+			}
+			for _, opnd := range []ssa.Value{b.X, b.Y} {
+				al, ld := headerSource(opnd, cells)
+				if al == nil {
+					continue
+				}
+				n++
+				key := ord.next(load.FuncKey(fn) + "#arithmetic-on-" + al.Comment)
+				width := c19Width(bt)
+				src := derefType(al.Type()).Underlying().(*types.Basic)
+				switch {
+				case width >= 8:
+					r.OK("O-4", key, c.P.Pos(b.Pos()), "computed in 64 bits")
+				case c19Width(src) <= 2:
+					r.OK("O-4", key, c.P.Pos(b.Pos()), "operand bounded by its 16-bit type")
+				default:
+					how := c19Bounded(c, f, fn, b.Block(), ld, cells)
+					r.Check(how != "", "O-4", key, c.P.Pos(b.Pos()), how, fmt.Sprintf("a header value is combined by %s in a %d-bit type before any bound: the result can wrap, and a size check fed with it bounds nothing (convert to int64 first)", b.Op, width*8))
+				}
+			}
+		})
+	}
+	r.Analysed["header_arithmetic_sites"] = n
+}
+
+// c19Width: bytes of an integer type; int/uint count as 8 (the shipped
+// 64-bit targets), only the explicitly sized narrow types are narrow.
+func c19Width(b *types.Basic) int {
+	switch b.Kind() {
+	case types.Int8, types.Uint8:
+		return 1
+	case types.Int16, types.Uint16:
+		return 2
+	case types.Int32, types.Uint32:
+		return 4
+	}
+	return 8
 }
